@@ -238,7 +238,11 @@ class Skeleton:
                     edge_to_replace.append(e)
 
             for ii in range(0, len(edge_to_remove)):
-                del self.edges[edge_to_remove[ii]]
+                removed_edge = self.edges.pop(edge_to_remove[ii])
+                # unregister it from its vertices here: the destructor only does so once nothing else references the edge
+                for end_vertex in removed_edge.verticesArray:
+                    if removed_edge.id in end_vertex.ownEdges:
+                        end_vertex.remove_edge(removed_edge.id)
 
             for ii in range(0, len(edge_to_replace)):
                 edge_object = self.edges[edge_to_replace[ii]]
